@@ -221,7 +221,59 @@ def judge_strand(case, rec):
                     gm.tolist(), want.tolist(), case["mask_size"]), "mask1")
 
 
+# ------------------------------------------------------------- dimension without valid element
+@st.composite
+def empty_case_st(draw):
+    sc = draw(scen.scenario_st([("cat", "cat"), ("cat", "cat"), ("cat", "mr"), ("mr", "cat"),
+                                ("cat_date", "cat"), ("cat", "cat", "cat")],
+                               measure="none", allow_order_key=False))
+    sv, q = sc["survey"], sc["query"]
+    cands = [k for k, d in enumerate(q["dims"][-2:]) if sv["vars"][d["var"]]["type"] == "cat"]
+    which = draw(st.sampled_from(cands))
+    var = sv["vars"][q["dims"][-2:][which]["var"]]
+    for c in var["cats"]:
+        c["missing"] = True      # every category of this variable is a missing reason
+        c.pop("date", None)
+    sc["which"] = which
+    sc["transforms"] = {}
+    sc["insertions"] = {"rows": [], "cols": []}
+    sc["mask_size"] = draw(st.integers(0, 3))
+    return sc
+
+
+def judge_empty(case, rec):
+    """A slice one of whose dimensions has no valid element has extent 0 in that direction;
+    its per-cell bases and masks are (empty) arrays of the reported shape, its margins along
+    the other dimension count nobody."""
+    sv, q = case["survey"], case["query"]
+    cube = lib.cube(zz9enc.encode(sv, q), {}, mask_size=case["mask_size"])
+    rec.event("shape=" + "x".join(case["shape"]))
+    rec.event("empty=%s" % ("rows" if case["which"] == 0 else "columns"))
+    rec.nontrivial()
+    for part in cube.partitions:
+        shape = tuple(part.shape)
+        rec.compared()
+        if 0 not in shape or shape[case["which"]] != 0:
+            rec.violation("shape %r although the %s variable has no valid category" % (
+                shape, "rows" if case["which"] == 0 else "columns"), "empty-shape")
+            continue
+        for name in ("counts", "unweighted_counts", "row_unweighted_bases",
+                     "row_weighted_bases", "column_unweighted_bases", "column_weighted_bases",
+                     "table_unweighted_bases", "table_weighted_bases"):
+            rec.compared()
+            try:
+                got = np.asarray(getattr(part, name))
+            except IndexError as e:
+                rec.violation("%s cannot be read on a slice of shape %r: IndexError %s" % (
+                    name, shape, e), "bases-unreadable-without-valid-elements")
+                continue
+            if got.shape != shape:
+                rec.violation("%s has shape %r on a slice of shape %r" % (
+                    name, got.shape, shape), "empty-extent-" + name)
+
+
 SUBCHECKS = [
     SubCheck("slice-bases", case_st(SHAPES), judge_slice, quick=2400, thorough=40000),
     SubCheck("strand-bases", case_st(scen.SHAPES_1D), judge_strand, quick=800, thorough=12000),
+    SubCheck("empty-dimension", empty_case_st(), judge_empty, quick=400, thorough=4000),
 ]
